@@ -38,6 +38,9 @@ MUTANTS = [
     ("C17", "FindEdgeFromPathToSegment", "line/group/ordered/captured_path.py", "      if any(e.line is edge for e in edges):\n        # (an edge of the segment with itself is listed once per end)\n        continue\n", ""),
     ("C17", "FindEdgeFromPathToSegment", "line/group/ordered/captured_path.py", "    elif len(edges) > 1:\n      raise gfapy.NotUniqueError(", "    elif len(edges) > 2:\n      raise gfapy.NotUniqueError("),
     ("C17", "FindEdgeFromPathToSegment", "line/group/ordered/captured_path.py", '        edges.append(gfapy.OrientedLine(edge, "-"))', '        edges.append(gfapy.OrientedLine(edge, "+"))'),
+    ("C13", "AddLineVersion_gfa1", "lines/creators.py", '      if gfa_line.VN and gfa_line.VN != "1.0":', '      if gfa_line.VN and not gfa_line.VN.startswith("1."):'),
+    ("C13", "AddLineVersion_gfa2", "lines/creators.py", '      if gfa_line.version == "gfa1":\n        raise gfapy.VersionError(', '      if False:\n        raise gfapy.VersionError('),
+    ("C13", "AddLineUnknownVersion", "lines/creators.py", '      if gfa_line.VN and gfa_line.VN not in ["1.0", "2.0"]:', '      if self._vlevel > 0 and gfa_line.VN and gfa_line.VN not in ["1.0", "2.0"]:'),
     ("C16", "Topology_n_dead_ends", "graph_operations/topology.py", "      if not s.dovetails_R: n+=1", "      if s.dovetails_R: n+=1"),
     ("C16", "Topology_n_containments", "graph_operations/topology.py", "      n += len(s.edges_to_containers)", "      n += len(s.edges_to_contained)"),
     ("C16", "Topology_n_dovetails", "graph_operations/topology.py", "      n += len(s.dovetails_R)\n    return n // 2", "      n += len(s.dovetails_R)\n    return n"),
